@@ -7,10 +7,15 @@ V = os.path.dirname(os.path.dirname(os.path.abspath(__file__)))
 args = [a for a in sys.argv[1:] if not a.startswith('--')]
 seeded = '--seeded' in sys.argv
 items = []
+results = []
 if seeded:
     for d in sorted(glob.glob(os.path.join(V, 'seeded', '*'))):
         meta = json.load(open(os.path.join(d, 'meta.json')))
         if not args or meta['property'] in args:
+            if meta.get('obsolete'):
+                print(f"OBSOLETE {meta['property']} {os.path.relpath(d, V)}: {str(meta.get('note') if meta['obsolete'] is True else meta['obsolete'])[:160]}")
+                results.append({'id': os.path.basename(d), 'property': meta['property'], 'title': meta.get('title', ''), 'verdict': 'obsolete', 'by': str(meta.get('note') if meta['obsolete'] is True else meta['obsolete'])})
+                continue
             items.append((meta['property'], os.path.join(d, 'patch.diff')))
 else:
     for d in sorted(glob.glob(os.path.join(V, 'selftest', '*'))):
@@ -41,6 +46,18 @@ for prop, diff in items:
               f"{(viol[0] if viol else c.stdout.strip().splitlines()[-1:])}")
         if not ok:
             bad += 1
+        if seeded:
+            mid = os.path.basename(os.path.dirname(diff))
+            meta = json.load(open(os.path.join(os.path.dirname(diff), 'meta.json')))
+            first = viol[0].split('replay=')[-1] if viol else ''
+            by = first.split('/')[-1].split('-', 1)[-1].rsplit('-', 1)[0][:110] if first else ''
+            results.append({'id': mid, 'property': prop, 'title': meta.get('title', ''), 'verdict': 'caught' if ok else 'missed', 'by': by})
     finally:
         subprocess.run(['git', '-C', '/repo', 'checkout', '--', '.'], check=True)
+if seeded and '--record' in sys.argv:
+    path = os.path.join(V, 'seeded', 'RESULTS.json')
+    prev = json.load(open(path)) if os.path.exists(path) else {}
+    for r in results:
+        prev[r['id']] = r
+    json.dump(prev, open(path, 'w'), indent=1, sort_keys=True)
 sys.exit(1 if bad else 0)
